@@ -441,10 +441,8 @@ func RunConc(sc *ConcScenario, want Want) *ConcResult {
 		// ---- user-function call counts and racers (C05) ----
 		if want.Racers {
 			res.checkFnCalls(allRecs, pi)
-			if !linBad {
-				res.checkRacers(phaseRecs, st0, slots, pi)
-			}
 		}
+		_ = linBad
 
 		// ---- traversal (C07) ----
 		if want.Traversal {
@@ -466,6 +464,9 @@ func RunConc(sc *ConcScenario, want Want) *ConcResult {
 			if r.Ok {
 				newState[r.Op.Key] = keyState{r.Val, r.Exp}
 			}
+		}
+		if want.Racers {
+			res.checkRacers(phaseRecs, st0, slots, pi, newState)
 		}
 		cleared := false
 		for _, r := range phaseRecs {
@@ -700,7 +701,7 @@ func isPureRead(k OpKind) bool {
 // was present), everybody returns that value. For a key whose only writers
 // were FnInc Computes: the observed old values are pairwise distinct and
 // contiguous from the initial value.
-func (res *ConcResult) checkRacers(recs []*Rec, st0 linState, slots map[int]int, phase int) {
+func (res *ConcResult) checkRacers(recs []*Rec, st0 linState, slots map[int]int, phase int, final map[int]keyState) {
 	if slots == nil {
 		return
 	}
@@ -722,24 +723,75 @@ func (res *ConcResult) checkRacers(recs []*Rec, st0 linState, slots map[int]int,
 		if !ok {
 			continue
 		}
-		onlyGOC, onlyInc := true, true
-		nGOC, nInc := 0, 0
+		onlyGOC, onlyInc, onlySwap := true, true, true
+		nGOC, nInc, nSwap := 0, 0, 0
 		for _, r := range rs {
 			if r.Pending {
-				onlyGOC, onlyInc = false, false
+				onlyGOC, onlyInc, onlySwap = false, false, false
 			}
 			switch {
 			case isGetOrCreate(r.Op.K):
 				nGOC++
-				onlyInc = false
+				onlyInc, onlySwap = false, false
 			case isPureRead(r.Op.K):
 			case (r.Op.K == MCompute || r.Op.K == CCompute) && r.Op.Fn == FnInc:
 				nInc++
-				onlyGOC = false
+				onlyGOC, onlySwap = false, false
+			case r.Op.K == MLoadAndStore || r.Op.K == CGetAndSet:
+				nSwap++
+				onlyGOC, onlyInc = false, false
 			case r.Op.K == CGetAndRefresh:
 				onlyGOC = false
 			default:
-				onlyGOC, onlyInc = false, false
+				onlyGOC, onlyInc, onlySwap = false, false, false
+			}
+		}
+		if onlySwap && nSwap >= 2 {
+			// swap chain: every value is handed on exactly once
+			res.probe("swap_keys", 1)
+			stored := map[int64]bool{}
+			for _, r := range rs {
+				if r.Op.K == MLoadAndStore || r.Op.K == CGetAndSet {
+					stored[r.Op.Val] = true
+				}
+			}
+			initPresent := st0.V[s] != absent
+			if len(stored) != nSwap || (initPresent && stored[st0.V[s]]) {
+				continue // the values in play are not pairwise distinct: the rule does not apply
+			}
+			seenOld := map[int64]bool{}
+			misses := 0
+			for _, r := range rs {
+				if r.Op.K != MLoadAndStore && r.Op.K != CGetAndSet {
+					continue
+				}
+				if !r.Ok {
+					misses++
+					continue
+				}
+				if seenOld[r.Val] {
+					res.add("chain", phase, "two swaps of k%d both returned old value v%d (one update was lost or resurrected): %s", k, r.Val, r)
+				}
+				seenOld[r.Val] = true
+				if !stored[r.Val] && !(initPresent && r.Val == st0.V[s]) {
+					res.add("chain", phase, "swap of k%d returned v%d which nobody stored: %s", k, r.Val, r)
+				}
+			}
+			if initPresent && misses != 0 {
+				res.add("chain", phase, "key k%d held a live value yet %d swaps reported loaded=false", k, misses)
+			}
+			if !initPresent && misses != 1 {
+				res.add("chain", phase, "key k%d was absent and %d swaps reported loaded=false (want exactly 1)", k, misses)
+			}
+			if fs, ok := final[k]; ok {
+				if seenOld[fs.v] {
+					res.add("chain", phase, "the final value v%d of k%d was already handed on as an old value", fs.v, k)
+				}
+				if !stored[fs.v] {
+					res.add("chain", phase, "the final value v%d of k%d was not stored by any swap", fs.v, k)
+				}
+			} else {
+				res.add("chain", phase, "k%d is absent after %d completed swaps", k, nSwap)
 			}
 		}
 		if onlyGOC && nGOC >= 1 {
@@ -795,6 +847,9 @@ func (res *ConcResult) checkRacers(recs []*Rec, st0 linState, slots map[int]int,
 				if old < base || old >= base+int64(nInc) {
 					res.add("chain", phase, "increment of k%d observed %d outside [%d,%d): %s", k, old, base, base+int64(nInc), r)
 				}
+			}
+			if fs, ok := final[k]; !ok || fs.v != base+int64(nInc) {
+				res.add("chain", phase, "after %d increments from %d the final value of k%d is %v (present=%v)", nInc, base, k, fs.v, ok)
 			}
 		}
 	}
